@@ -53,9 +53,14 @@ where
     let file_result = File::open(filepath);
     match file_result {
         Err(_) => false,
-        Ok(mut file) => {
-            let mut magic = [0u8; 2];
-            file.read_exact(&mut magic).is_ok() && magic == [0x1f, 0x8b]
+        Ok(file) => {
+            // a file that ends after the first magic byte is a gzip file cut short as well
+            // (0x1f is a control character, no text file starts with it)
+            let mut magic = Vec::with_capacity(2);
+            match file.take(2).read_to_end(&mut magic) {
+                Ok(_) => magic == [0x1f, 0x8b] || magic == [0x1f],
+                Err(_) => false,
+            }
         }
     }
 }
